@@ -204,8 +204,9 @@ def gen_instrumented(rng, reg, stem, utf8):
             states = list(dict.fromkeys(adv_string(rng, 4) for _ in range(rng.randrange(1, 4))))
             m = pc.Enum(name, doc, lnames, registry=reg, states=states)
         elif kind == 'Histogram':
+            pool = [0.1, 1, 2.5, 1e6, 1e10] if rng.random() < 0.9 else [-2.5, -1, 0, 0.1, 1, 2.5]   # sometimes negative bounds
             m = pc.Histogram(name, doc, lnames, registry=reg,
-                             buckets=sorted(set(rng.choice([0.1, 1, 2.5, 1e6, 1e10]) for _ in range(rng.randrange(1, 4)))))
+                             buckets=sorted(set(rng.choice(pool) for _ in range(rng.randrange(1, 4)))))
         else:
             m = getattr(pc, kind)(name, doc, lnames, registry=reg)
     except ValueError:
